@@ -125,4 +125,14 @@ theorem desired_list_unlist (r : Int) (S : List Int) (k : Int) (hkS : k ∉ S) :
   · intro hx
     exact ⟨Or.inr hx, fun h => hkS (h ▸ hx)⟩
 
+/-- **listing a desired ordinal with `replicas` unchanged moves one pod**: the desired set loses `k` and gains one ordinal above
+    all the others -/
+theorem desired_cons_same (r : Int) (S : List Int) (k : Int) (h1 : 1 ≤ r) (hk : k ∈ desired r S) :
+    ∃ n, desired r (k :: S) = (desired r S).erase k ++ [n] ∧ 0 ≤ n ∧ n ∉ k :: S ∧ ∀ o ∈ (desired r S).erase k, o < n := by
+  obtain ⟨n, hn, hn0, hnS, hlt⟩ := desired_succ (r - 1) (k :: S) (by omega)
+  have e : r - 1 + 1 = r := by omega
+  rw [e, desired_cons_erase r S k h1 hk] at hn
+  rw [desired_cons_erase r S k h1 hk] at hlt
+  exact ⟨n, hn, hn0, hnS, hlt⟩
+
 end Asts
